@@ -1,10 +1,238 @@
-(* C16 - Schemas and columns survive persistence round-trips unchanged. *)
+(* C16 - Schemas and columns survive persistence round-trips unchanged.
+   Property theorems only; each is closed by [exact] of a lemma from Proofs/C16.v and followed by
+   Print Assumptions.
+
+   Reading guide (definitions in Model/C16.v and Proofs/C16.v, tables in Gen/C16_Fields.v):
+     column                 the value of each of the 17 declared FlatColumn attributes ([get f c], f : field);
+     init parse cls fresh kw    cls(double-star kw): FlatColumn.__init__ on keyword arguments kw
+     to_dict_col / to_dict / from_dict, to_json / from_json, to_flatcolumn    the operations of the property
+     parse                  OrsoTypes.<m>.parse (C07), a parameter; ser_ext: orjson's output for non-native leaves, a parameter
+     persistable parse c    what the dictionary form can carry (see Proofs/C16.v): member type / element type /
+                            disposition, DECIMAL with its parameters, the free attributes hold no enum member or
+                            Expectation object, a truthy default is a fixed point of its type's parse
+     json_persistable       the same for the JSON form: every free attribute is written and read back as itself,
+                            the default's JSON form parses back to the default
+     untyped c              the type is the placeholder OrsoTypes._MISSING_TYPE
+     same_but_untyped_type c' c    c' = c in every attribute, the type attribute being required only when c is typed. *)
 From Coq Require Import List NArith ZArith Bool.
+From Coq Require Import String.
 From Orso Require Import Base.C16_Defs Gen.C16_Fields Model.C16 Proofs.C16.
+From Orso Require Gen.C06_Types Model.C05.
 Import ListNotations.
 
+(* The field lists regenerated from dataclasses.fields(FlatColumn) / dataclasses.fields(RelationSchema) are exactly
+   the attributes the model's records have: a field added to or dropped from either class breaks this obligation. *)
 Theorem C16_declared_fields_are_the_modelled_ones :
   map fst column_field_table = map field_name all_fields /\
   map fst schema_field_table = schema_field_names.
 Proof. exact field_tables_modelled. Qed.
 Print Assumptions C16_declared_fields_are_the_modelled_ones.
+
+(* The enum table the re-parse of type names (Model/C06.v from_name) works on is the one regenerated for this check. *)
+Theorem C16_type_table_is_the_one_from_name_uses : type_members = Gen.C06_Types.members.
+Proof. exact type_table_shared. Qed.
+Print Assumptions C16_type_table_is_the_one_from_name_uses.
+
+(* FULL STATEMENT (not provable, see C16_untyped_type_refuted):
+     forall persistable c, init parse cls fresh (to_dict_col c) = Ok c.
+   PROVED: rebuilding a column from its dictionary yields a column equal to the original in every declared
+   attribute; only the type attribute of an UNTYPED column is excluded (known finding F-C16-4b). *)
+Theorem C16_column_dict_round_trip_partial :
+  forall (parse : str -> pv -> result pv) (cls fresh : str) (c : column),
+  persistable parse c ->
+  exists c', init parse cls fresh (to_dict_col c) = Ok c' /\
+             (forall f, f <> FType -> get f c' = get f c) /\ (untyped c = false -> c' = c).
+Proof. exact column_dict_round_trip. Qed.
+Print Assumptions C16_column_dict_round_trip_partial.
+
+(* from_dict (to_dict s): the schema's name, aliases and primary key come back, and the columns one by one as above. *)
+Theorem C16_schema_dict_round_trip_partial :
+  forall (parse : str -> pv -> result pv) (fresh : nat -> str) (s : schema),
+  Forall (persistable parse) (s_columns s) ->
+  conv (s_name s) = s_name s -> conv (s_aliases s) = s_aliases s -> conv (s_pk s) = s_pk s ->
+  exists s', from_dict parse fresh (to_dict s) = Ok s' /\
+             s_name s' = s_name s /\ s_aliases s' = s_aliases s /\ s_pk s' = s_pk s /\
+             Forall2 same_but_untyped_type (s_columns s') (s_columns s) /\
+             s_columns s' = map restored (s_columns s).
+Proof. exact schema_dict_round_trip. Qed.
+Print Assumptions C16_schema_dict_round_trip_partial.
+
+(* ... hence a schema of typed columns (whose own statistics are unset, see C16_schema_statistics_refuted)
+   comes back as the very same object, field by field. *)
+Theorem C16_schema_round_trip_exact_partial :
+  forall (parse : str -> pv -> result pv) (fresh : nat -> str) (s : schema),
+  Forall (persistable parse) (s_columns s) -> Forall (fun c => untyped c = false) (s_columns s) ->
+  conv (s_name s) = s_name s -> conv (s_aliases s) = s_aliases s -> conv (s_pk s) = s_pk s ->
+  s_rcm s = PNone -> s_rce s = PNone -> s_dsm s = PNone -> s_dse s = PNone ->
+  from_dict parse fresh (to_dict s) = Ok s.
+Proof. exact schema_round_trip_exact. Qed.
+Print Assumptions C16_schema_round_trip_exact_partial.
+
+(* FULL STATEMENT (not provable for untyped columns): from_json (to_json c) = c.
+   PROVED: to_json succeeds and from_json rebuilds a column equal to the original in every declared attribute,
+   the type attribute of untyped columns excluded (F-C16-4b). *)
+Theorem C16_column_json_round_trip_partial :
+  forall (parse : str -> pv -> result pv) (ser_ext : atom -> result jval) (fresh : str) (c : column),
+  json_persistable parse ser_ext c ->
+  exists j c', to_json ser_ext c = Ok j /\ from_json parse fresh j = Ok c' /\
+               (forall f, f <> FType -> get f c' = get f c) /\ (untyped c = false -> c' = c).
+Proof. exact column_json_round_trip. Qed.
+Print Assumptions C16_column_json_round_trip_partial.
+
+(* The JSON hypothesis on free attributes holds for every value with a native JSON form: None, booleans, 64-bit
+   integers, finite floats, text, expectation dictionaries, and lists of those. *)
+Theorem C16_native_values_survive_json :
+  forall (ser_ext : atom -> result jval),
+  (forall a, native_atom a -> json_stable ser_ext (PA a)) /\
+  (forall l, Forall native_atom l -> json_stable ser_ext (PL l)).
+Proof. intros ser_ext. split; [exact (native_stable ser_ext) | exact (native_list_stable ser_ext)]. Qed.
+Print Assumptions C16_native_values_survive_json.
+
+(* Flattening any column object (the attributes of whatever column class) keeps identity, name, type, precision,
+   scale, element type, nullability, default, aliases, description and the three statistics. *)
+Theorem C16_to_flatcolumn_keeps :
+  forall (parse : str -> pv -> result pv) (fresh : str) (c : column) (s : str),
+  c_name c = PA (AText s) -> normalised parse c ->
+  exists c', to_flatcolumn parse fresh c = Ok c' /\ forall f, In f flat_kept -> get f c' = get f c.
+Proof. exact flatten_keeps. Qed.
+Print Assumptions C16_to_flatcolumn_keeps.
+
+Theorem C16_flat_kept_are_the_listed_attributes :
+  flat_kept = [FName; FDefault; FDescription; FAliases; FIdentity; FType; FElementType; FNullable; FScale;
+               FPrecision; FLowest; FHighest; FNullCount].
+Proof. reflexivity. Qed.
+Print Assumptions C16_flat_kept_are_the_listed_attributes.
+
+(* Behaviour: the restored schema accepts and rejects exactly the same records (validate as modelled and proved
+   in C05, on the view validate has of a column: name, type or 'untyped', nullability) - untyped columns included. *)
+Theorem C16_restored_schema_validates_alike :
+  forall (parse : str -> pv -> result pv) (fresh : nat -> str) (s s' : schema) (key : pv -> N) (r : Model.C05.record),
+  Forall (persistable parse) (s_columns s) ->
+  from_dict parse fresh (to_dict s) = Ok s' ->
+  Model.C05.validate (proj_schema key s') r = Model.C05.validate (proj_schema key s) r.
+Proof. exact restored_validates_alike. Qed.
+Print Assumptions C16_restored_schema_validates_alike.
+
+(* ... and reports the same description for every column - untyped columns included. *)
+Theorem C16_restored_schema_describes_alike :
+  forall (parse : str -> pv -> result pv) (fresh : nat -> str) (s s' : schema),
+  Forall (persistable parse) (s_columns s) ->
+  from_dict parse fresh (to_dict s) = Ok s' ->
+  map describe (s_columns s') = map describe (s_columns s).
+Proof. exact restored_describes_alike. Qed.
+Print Assumptions C16_restored_schema_describes_alike.
+
+(* ---------------- witnesses ---------------- *)
+Definition P0 : str -> pv -> result pv := fun _ v => Ok v.
+Definition T (s : string) : pv := PA (AText (txt s)).
+Definition plain_column (name : string) (ty elt : pv) : column :=
+  mkcolumn (T name) PNone ty elt PNone PNone (PL []) (PA (ABool true)) (PL []) (T "0123456789abcdef") PNone PNone PNone
+           (PL []) PNone PNone PNone.
+
+(* F-C16-4b (known): an untyped column comes back with type 0, not OrsoTypes._MISSING_TYPE. *)
+Theorem C16_untyped_type_refuted :
+  exists c c', persistable P0 c /\ init P0 class_flat [] (to_dict_col c) = Ok c' /\ get FType c' <> get FType c.
+Proof.
+  exists (plain_column "u" (PA (ATy missing_member)) PNone). eexists. split; [|split].
+  - split; [|split; [|split]].
+    + constructor; cbn.
+      * exists missing_member. split; reflexivity.
+      * left. reflexivity.
+      * intros H. vm_compute in H. discriminate.
+      * left. reflexivity.
+      * intros H. vm_compute in H. discriminate.
+    + intros f Hf. destruct f; try discriminate Hf; reflexivity.
+    + vm_compute. split; reflexivity.
+    + reflexivity.
+  - vm_compute. reflexivity.
+  - vm_compute. discriminate.
+Qed.
+Print Assumptions C16_untyped_type_refuted.
+
+(* candidate F-C16-6: from_dict does not restore the schema's own statistics. *)
+Theorem C16_schema_statistics_refuted :
+  exists s s', from_dict P0 (fun _ => []) (to_dict s) = Ok s' /\ s_rcm s' <> s_rcm s.
+Proof.
+  exists (mkschema (T "rel") (PL []) [plain_column "a" (PA (ATy (txt "INTEGER"))) PNone] PNone (PA (AInt 5)) PNone PNone PNone).
+  eexists. split; [vm_compute; reflexivity | vm_compute; discriminate].
+Qed.
+Print Assumptions C16_schema_statistics_refuted.
+
+(* candidate F-C16-7: an Expectation object comes back as its dictionary. *)
+Theorem C16_expectation_objects_refuted :
+  exists c c', wf_col c /\ init P0 class_flat [] (to_dict_col c) = Ok c' /\ c_expectations c' <> c_expectations c.
+Proof.
+  exists (mkcolumn (T "e") PNone (PA (ATy (txt "INTEGER"))) PNone PNone PNone (PL []) (PA (ABool true))
+                   (PL [AExp true true 1]) (T "id") PNone PNone PNone (PL []) PNone PNone PNone).
+  eexists. split; [|split].
+  - constructor; cbn.
+    + eexists. split; reflexivity.
+    + left. reflexivity.
+    + intros H. vm_compute in H. discriminate.
+    + left. reflexivity.
+    + intros H. vm_compute in H. discriminate.
+  - vm_compute. reflexivity.
+  - vm_compute. discriminate.
+Qed.
+Print Assumptions C16_expectation_objects_refuted.
+
+(* candidate F-C16-8: an ARRAY column without element type comes back with element type VARCHAR. *)
+Theorem C16_array_without_element_refuted :
+  exists c c', init P0 class_flat [] (to_dict_col c) = Ok c' /\ c_elt c = PNone /\ c_elt c' <> c_elt c.
+Proof.
+  exists (plain_column "l" (PA (ATy ty_array)) PNone). eexists.
+  split; [vm_compute; reflexivity | split; [reflexivity | vm_compute; discriminate]].
+Qed.
+Print Assumptions C16_array_without_element_refuted.
+
+(* ---------------- non-vacuity ---------------- *)
+(* A DECIMAL(10,2) column with a Decimal default, aliases, description, disposition, non-nullable flag, statistics
+   and a dictionary-form expectation satisfies [persistable] (for a parse that leaves Decimal('1.5') alone) and
+   [json_persistable] (for a serialiser writing it as "1.5" and a parse reading that text back). *)
+Definition price : column :=
+  mkcolumn (T "price") (PA (ADec 15 (-1))) (PA (ATy (txt "DECIMAL"))) PNone (T "unit price") (PA (ADisp (txt "AGE")))
+           (PL [AText (txt "cost")]) (PA (ABool false)) (PL [AExp false true 7]) (T "0123456789abcdef") PNone
+           (PA (AInt 10)) (PA (AInt 2)) (PL [AText (txt "t1")]) (PA (AInt 99)) (PA (AFloat 4609434218613702656)) (PA (AInt 0)).
+Definition P1 : str -> pv -> result pv :=
+  fun _ v => if pv_eqb v (T "1.5") then Ok (PA (ADec 15 (-1))) else Ok v.
+Definition S1 : atom -> result jval :=
+  fun a => if atom_eqb a (ADec 15 (-1)) then Ok (JText (txt "1.5")) else Raise TypeError.
+
+Lemma price_wf : wf_col price.
+Proof.
+  constructor; cbn.
+  - eexists. split; reflexivity.
+  - left. reflexivity.
+  - intros H. vm_compute in H. discriminate.
+  - right. eexists. split; reflexivity.
+  - intros _. split; reflexivity.
+Qed.
+
+Example C16_nonvacuous_dict :
+  persistable P1 price /\ untyped price = false /\
+  init P1 class_flat [] (to_dict_col price) = Ok price /\
+  lookup FType (to_dict_col price) = Some (T "DECIMAL") /\ lookup FDisposition (to_dict_col price) = Some (T "age").
+Proof.
+  split; [|repeat split; vm_compute; reflexivity].
+  split; [exact price_wf|]. split; [|split].
+  - intros f Hf. destruct f; try discriminate Hf; reflexivity.
+  - vm_compute. split; [intros _ m H; inversion H; reflexivity | intros H; discriminate].
+  - reflexivity.
+Qed.
+
+Example C16_nonvacuous_json :
+  json_persistable P1 S1 price /\
+  bind (to_json S1 price) (from_json P1 []) = Ok price /\
+  normalised P1 price /\ bind (to_flatcolumn P1 [] price) (fun c => Ok (c_identity c, c_default c, c_disposition c)) =
+                         Ok (T "0123456789abcdef", PA (ADec 15 (-1)), PNone).
+Proof.
+  split; [|split; [vm_compute; reflexivity | split; [|vm_compute; reflexivity]]].
+  - split; [exact price_wf|]. split; [|split].
+    + intros f Hf H1 H2. destruct f; try discriminate Hf; try (contradiction H1; reflexivity); try (contradiction H2; reflexivity);
+        (apply native_stable; cbn; auto) || (apply native_list_stable; repeat constructor).
+    + eexists. split; [vm_compute; reflexivity|]. vm_compute.
+      split; [intros _ m H; inversion H; reflexivity | intros H; discriminate].
+    + eexists. split; vm_compute; reflexivity.
+  - unfold normalised. split; [left; eexists; reflexivity|]. split; [left; reflexivity|].
+    split; [intros _; split; reflexivity|]. intros _. eexists. split; reflexivity.
+Qed.
